@@ -616,7 +616,54 @@ def _knobify(src, filename, modname):
                             args=[node.value], keywords=[])
             node.value = ast.copy_location(call, node.value)
             changed = True
-    if not changed:
+    # numeric literals >= 512 inside function bodies (size thresholds written in
+    # line: `if x.numel() > 2 ** 16`, `chunk = 65536`): the pinned tree has none
+    # (its largest literal is 180), so every one of them is new
+    def value_of(node):
+        try:
+            return eval(compile(ast.Expression(body=node), filename, "eval"), {"__builtins__": {}})
+        except Exception:  # noqa
+            return None
+
+    class Wrap(ast.NodeTransformer):
+        def __init__(self):
+            self.depth = 0
+            self.changed = False
+
+        def visit_FunctionDef(self, node):
+            self.depth += 1
+            self.generic_visit(node)
+            self.depth -= 1
+            return node
+        visit_AsyncFunctionDef = visit_FunctionDef
+        visit_Lambda = visit_FunctionDef
+
+        def visit_Call(self, node):
+            if isinstance(node.func, ast.Name) and node.func.id == "__wavesim_knob__":
+                return node
+            return self.generic_visit(node)
+
+        def wrap(self, node):
+            v = value_of(node)
+            if isinstance(v, (int, float)) and not isinstance(v, bool) and v >= 512:
+                self.changed = True
+                call = ast.Call(func=ast.Name(id="__wavesim_knob__", ctx=ast.Load()),
+                                args=[node], keywords=[])
+                return ast.copy_location(call, node)
+            return None
+
+        def visit_Constant(self, node):
+            if self.depth and isinstance(node.value, (int, float)) and not isinstance(node.value, bool):
+                return self.wrap(node) or node
+            return node
+
+        def visit_BinOp(self, node):
+            if self.depth and numeric(node):
+                return self.wrap(node) or node
+            return self.generic_visit(node)
+    wr = Wrap()
+    tree = wr.visit(tree)
+    if not changed and not wr.changed:
         return src
     ast.fix_missing_locations(tree)
     return tree
